@@ -496,10 +496,21 @@ class CryptographyEngine(api.CryptographicEngine):
                 if iv_nonce is None:
                     iv_nonce = os.urandom(algorithm.block_size // 8)
                     return_iv_nonce = True
-                if is_gcm_mode:
-                    mode = mode(iv_nonce, None, min_tag_length=auth_tag_length)
-                else:
-                    mode = mode(iv_nonce)
+                try:
+                    if is_gcm_mode:
+                        mode = mode(
+                            iv_nonce,
+                            None,
+                            min_tag_length=auth_tag_length
+                        )
+                    else:
+                        mode = mode(iv_nonce)
+                except Exception as e:
+                    self.logger.exception(e)
+                    raise exceptions.InvalidField(
+                        "The IV/nonce or the authenticated encryption tag "
+                        "length is not valid for the specified cipher mode."
+                    )
             else:
                 mode = mode()
 
@@ -866,14 +877,21 @@ class CryptographyEngine(api.CryptographicEngine):
                     raise exceptions.InvalidField(
                         "IV/nonce is required."
                     )
-                if is_gcm_mode:
-                    mode = mode(
-                        iv_nonce,
-                        tag=auth_tag,
-                        min_tag_length=len(auth_tag)
+                try:
+                    if is_gcm_mode:
+                        mode = mode(
+                            iv_nonce,
+                            tag=auth_tag,
+                            min_tag_length=len(auth_tag)
+                        )
+                    else:
+                        mode = mode(iv_nonce)
+                except Exception as e:
+                    self.logger.exception(e)
+                    raise exceptions.InvalidField(
+                        "The IV/nonce or the authenticated encryption tag "
+                        "is not valid for the specified cipher mode."
                     )
-                else:
-                    mode = mode(iv_nonce)
             else:
                 mode = mode()
 
